@@ -25,6 +25,9 @@ class EqVert(Vertex):
         return isinstance(other, EqVert) and self.key == other.key
     def __hash__(self):
         return hash(self.key)
+def make_reject(target):
+    """closures created from one lambda: same code object, different captured value"""
+    return lambda e, v: v is not target
 class FalsyCallable:
     """A callable user object whose truth value is False (e.g. an empty allow-list with __len__)."""
     def __init__(self, answer):
